@@ -8,6 +8,7 @@ CONSTANTS
   Shapes <- ShapesQuick
   XKs <- XKsQuick
   Plan <- PlanAll
+  SpellRule = "alt"
 INVARIANT CountOK
 INVARIANT SampleOK
 INVARIANT BestIsLabel
@@ -17,5 +18,6 @@ INVARIANT SameActions
 INVARIANT ContextIsRowWithoutLabel
 INVARIANT OracleTotal
 INVARIANT EveryReadAlike
+INVARIANT SpellingIrrelevant
 INVARIANT Emit
 CHECK_DEADLOCK FALSE
